@@ -168,3 +168,24 @@ let job_lowerm (job : Sx.t) : string =
   let a = one "dedup" true in
   let b = one "nodedup" false in
   a ^ " " ^ b
+
+
+(* `tsem` jobs: the bit-level semantics (coq/Compile/TSem.v = the lowering run over Booleans) on the same
+   inputs as the `sem` job; results in the syntax of the decoded circuit outputs *)
+let lfuel = nat_of_int 2000
+
+let fmt_pnum (n : BinNums.coq_N) : string =
+  match int_of_n n with 1 -> "Overflow" | 2 -> "DivByZero" | 3 -> "OutOfBounds" | k -> Printf.sprintf "Invalid%d" k
+
+let job_tsem (job : Sx.t) : string =
+  let p = program (Stdlib.List.hd (Sx.args (Sx.field job "ast"))) in
+  let results = Stdlib.List.map (fun one ->
+      let ins = Stdlib.List.map (fun s -> bits_of_string (Sx.bytes s)) (Sx.list one) in
+      match TSem.tsem_program lfuel p ins with
+      | Util.Ok (None, bits) -> Printf.sprintf "(ok \"%s\")" (string_of_bits bits)
+      | Util.Ok (Some (r, m), _) ->
+        Printf.sprintf "(panic %s %s %s %s %s)" (fmt_pnum r) (string_of_n m.PanicRec.pl_sl) (string_of_n m.PanicRec.pl_sc)
+          (string_of_n m.PanicRec.pl_el) (string_of_n m.PanicRec.pl_ec)
+      | Util.Crash -> "(crash)"
+      | Util.OutOfFuel -> "(nofuel)") (Sx.args (Sx.field job "inss")) in
+  String.concat " " results
